@@ -3,7 +3,9 @@ From V.gen Require Consts.
 From V.common Require Import Wire Varint Protobuf.
 From V.C18 Require Model.
 From V.C03 Require Model.
-From V.C19 Require Import Formats Model Utf8Proofs Proofs MsProofs.
+From V.C19 Require Import Formats Model Utf8Proofs Proofs MsProofs Net NetProofs.
+From V.C19 Require Sites.
+From V.gen Require DecodeSites.
 Import ListNotations.
 Open Scope N_scope.
 From V.C19 Require Import Properties.
@@ -174,6 +176,55 @@ Check (C19_roundtrip_webrtc_message :
   blen body <= WEBRTC_MAX_FRAME ->
   webrtc_extract (webrtc_encode_message payload flag ++ rest) = WfFrame body rest /\
   webrtc_message body = Some (if is_nil payload then None else Some payload, flag)).
+Check (C19_ws_total :
+  forall role b f, (length b < f)%nat -> ws_read f role None b [] = ws_run role b).
+Check (C19_ws_delivered_bounded :
+  forall role b, (length (ws_run role b) <= length b)%nat).
+Check (C19_ws_oversized_checked_first :
+  forall f role acc b out h r,
+  ws_header b = Some (h, r) -> WS_MAX_FRAME < h_len h -> ws_read (S f) role acc b out = out).
+Check (C19_ws_roundtrip :
+  forall chunks mask,
+  mask_ok mask -> Forall (fun c => blen c <= WS_MAX_FRAME) chunks ->
+  ws_run (reader_of mask) (concat (map (ws_frame mask) chunks)) = concat chunks).
+Check (C19_noise_frame_bounded :
+  forall b m r, bytes_ok b = true -> hs_frame b = Some (m, r) ->
+  blen m <= DecodeSites.SNOW_MAXMSGLEN /\ exists h l, b = h :: l :: m ++ r /\ blen m = h * 256 + l).
+Check (C19_noise_raw_rejected :
+  forall role b, noise_raw role b = 1 \/ noise_raw role b = 2).
+Check (C19_noise_identity_ok :
+  forall o p t, noise_identity_result o p = 0 :: t ->
+  exists m k pk sg,
+    dec_noise p = Some m /\ n_key m = Some k /\ remote_key o k = Some pk /\ n_sig m = Some sg /\
+    orc_flag o 7 (pk ++ sg) = true /\ t = blen (peer_of_ed25519 pk) :: peer_of_ed25519 pk).
+Check (C19_noise_length_lie_rejected :
+  forall role o p d, d <> noise_msg_len role p ->
+  noise_active role o p (Some d) = [1] \/ noise_active role o p (Some d) = [2]).
+Check (C19_mdns_response_sound :
+  forall user o answers extra a, In a (mdns_response user o answers extra) ->
+  exists x vals v, In x extra /\ mx_txt x = Some vals /\ In v vals /\ orc_find o 6 v = Some (1 :: a)).
+Check (C19_mdns_response_count :
+  forall user o answers extra, (length (mdns_response user o answers extra) <= txt_count extra)%nat).
+Check (C19_mdns_own_name_ignored :
+  forall user o answers extra,
+  Forall (fun a => names_eqb (ma_name a) SERVICE_NAME = false \/ ma_ptr a = None \/ ma_ptr a = Some [user]) answers ->
+  nlist_eqb user user = true -> mdns_response user o answers extra = []).
+Check (C19_sites_match :
+  map (fun e => fst (fst e)) Sites.table = DecodeSites.sites).
+Check (C19_sites_kinds_ok :
+  forallb Sites.entry_ok Sites.table = true).
+Check (C19_codecs_match :
+  map fst Sites.codec_table = DecodeSites.codecs).
+Check (C19_codecs_all_bounded :
+  forallb Sites.codec_bounded DecodeSites.codecs = true).
+Check (C19_third_party_limits :
+  Model.YAMUX_DEFAULT_CREDIT = DecodeSites.YAMUX_DEFAULT_CREDIT /\ DecodeSites.SNOW_MAXMSGLEN = 65535 /\
+  WS_MAX_FRAME = 16777216 /\ WS_MAX_MESSAGE = 67108864 /\
+  Protobuf.RECURSION_LIMIT = DecodeSites.PROST_RECURSION_LIMIT).
+Check (C19_maddr_codes_match :
+  forallb (fun c => Sites.mem c DecodeSites.maddr_codes) (map fst proto_table) &&
+  forallb (fun c => Sites.mem c (map fst proto_table)) DecodeSites.maddr_codes &&
+  Nat.eqb (length proto_table) (length DecodeSites.maddr_codes) = true).
 Check (C19_yamux_syn_credit_refuted :
   exists credit, credit < 2 ^ 32 /\ u32_add_checked credit YAMUX_DEFAULT_CREDIT = None /\
     yamux_syn_credit_overflow 2 [0; 1; 0; 1; 0; 0; 0; 1; 255; 255; 255; 255] = true).
